@@ -222,10 +222,11 @@ def calibration_oracle(case):
     return None
 
 
-def make_loader(L, bs=1, extra=0):
-    n = L * bs - extra
+def make_loader(L, bs=1, extra=0, drop_last=False):
+    # drop_last: the dataset has `extra` (< bs) samples beyond L full batches, which the loader drops
+    n = L * bs + extra if drop_last else L * bs - extra
     ds = TensorDataset(torch.zeros(n, 2), torch.zeros(n, dtype=torch.long))
-    dl = DataLoader(ds, batch_size=bs)
+    dl = DataLoader(ds, batch_size=bs, drop_last=drop_last)
     assert len(dl) == L
     return dl
 
@@ -241,11 +242,11 @@ def real_gnm_steps(E, L):
     return r["hist"][0][2] if r["hist"] else None
 
 
-def engine_facts(mech, L, E, target, delta, bs=1, extra=0, real_loop=False):
+def engine_facts(mech, L, E, target, delta, bs=1, extra=0, real_loop=False, drop_last=False):
     """make_private_with_epsilon on a loader of length L, then exactly E*len(dp_loader) accounted
     steps (noise-free: only the accountant hook runs), then engine.get_epsilon."""
     from opacus import PrivacyEngine
-    dl = make_loader(L, bs, extra)
+    dl = make_loader(L, bs, extra, drop_last)
     m = nn.Linear(2, 2)
     opt = torch.optim.SGD(m.parameters(), lr=0.0)
     pe = PrivacyEngine(accountant=mech)
@@ -293,7 +294,7 @@ def end_to_end_oracle(case):
 
 def _end_to_end_oracle(case):
     mech, L, E, t, d = case["mech"], case["L"], case["epochs"], case["target"], case["delta"]
-    e = engine_facts(mech, L, E, t, d, case.get("bs", 1), case.get("extra", 0), case.get("real_loop", False))
+    e = engine_facts(mech, L, E, t, d, case.get("bs", 1), case.get("extra", 0), case.get("real_loop", False), case.get("drop_last", False))
     return judge_end_to_end(case, e)
 
 
@@ -405,12 +406,12 @@ def search(ctx, v):
         bs = rng.choice([1, 1, 2, 3])
         extra = rng.randrange(bs)
         case = {"mech": mech, "L": L, "epochs": E, "target": t, "delta": rng.choice([1e-5, 1e-6]), "bs": bs, "extra": extra,
-                "real_loop": (j % 10 == 0 and L * E <= 400), "e2e": True}
+                "real_loop": (j % 10 == 0 and L * E <= 400), "e2e": True, "drop_last": bs > 1 and rng.random() < 0.4}
         consistent = int(1 / (1 / L)) == L and int(E / (1 / L)) == E * L
         ctx.case(("e2e", mech, L, E, t), nontrivial=True, kind=f"e2e:{mech}:" + ("consistent" if consistent else "truncating"))
         ctx.count("search:end-to-end")
         try:
-            e = engine_facts(mech, L, E, t, case["delta"], bs, extra, case["real_loop"])
+            e = engine_facts(mech, L, E, t, case["delta"], bs, extra, case["real_loop"], case["drop_last"])
         except ValueError as ex:
             if "different signs" in str(ex) or "budget is too low" in str(ex):
                 ctx.count("search:end-to-end:accountant-refused")
